@@ -706,11 +706,14 @@ class TextFileLoader(
                 raise ValueError(
                     'No data columns were selected to be loaded!')
 
+            # A file with a single data row must result in an one-dimensional
+            # array of length 1, not in a zero-dimensional array.
             data_ndarray = np.loadtxt(
                 ifile,
                 dtype=dtype,
                 comments=self._header_comment,
-                usecols=usecols)
+                usecols=usecols,
+                ndmin=1)
 
         data = DataFieldRecordArray(
             data_ndarray,
